@@ -62,9 +62,7 @@ for n in ["shm_zero_from_bytes", "shm_zero_from_byte", "shm_zero_received"]:
     H(n, ["C18"], sym="zero-length OsIpcSharedMemory at the platform level: create, Deref, clone, ==, send/receive", bounds="unwind 10")
 
 # ---- vanished receivers (C09) -------------------------------------------------------------------
-for n in ["gone_dropped_small", "gone_dropped_small_att", "gone_dropped_multi_att", "gone_transit_small", "gone_transit_multi_att",
-          "gone_transit_dropped_small", "gone_transit_dropped_multi_att", "gone_transit_received_small_att",
-          "gone_transit_received_multi", "gone_ipc_dropped"]:
+for n in ["gone_dropped_small", "gone_dropped_small_att", "gone_dropped_multi_att", "gone_ipc_dropped"]:
     H(n, ["C09"], sym="payload bytes symbolic; scenario (dropped / in transit / transit then carrier dropped / transit then unpacked), shape (3 or 57 bytes) and attachment concrete",
       bounds="unwind 6; 1 or 3 packets; <= 1 attachment")
 
@@ -76,9 +74,23 @@ H("modes_timeout_ready", ["C10"], sym="wait in ms and message value symbolic", b
 H("modes_recv_after_try", ["C10"], sym="none (call sequence)", bounds="unwind 8")
 
 # ---- attachments (C04) ---------------------------------------------------------------------------
-for n in ["attach_platform_s", "attach_platform_r_pending2", "attach_platform_srs_reg2", "attach_platform_rs_multi", "attach_platform_sr_multi25"]:
-    H(n, ["C04"], sym="payload, nonces, pending messages and region fill symbolic; layout (kinds, regions, pending count, packets) concrete",
-      bounds="unwind 6; <= 3 channels + 2 regions; <= 2 pending messages")
-H("attach_ipc_mixed", ["C04"], sym="nonces and data symbolic; one value with IpcSender, IpcReceiver (1 pending), IpcSharedMemory, IpcBytesSender, OpaqueIpcSender", bounds="unwind 8")
-H("attach_ipc_two_hops", ["C04"], sym="three messages symbolic: sent before, between and after two hops of the receiver", bounds="unwind 8")
+# (end-to-end attach_platform_* / attach_ipc_* / gone_transit_* harnesses exist in h_attach.rs / h_gone.rs and pass
+#  natively, but a value read back from a heap-allocated enum (Vec<OsIpcChannel>) is never a constant for CBMC's
+#  symbolic executor, which turns the whole model state symbolic: they ran out of memory. The property is decided
+#  in two halves against a shared interface instead: sending side over the recording kernel (send_plan_att_*),
+#  receiving side with packets injected by plain system calls (recv_att_*, transit_*).)
+for n in ["recv_att_1s", "recv_att_2s_1r", "recv_att_2s_2r_multi", "recv_att_1s_multi25"]:
+    H(n, ["C04"], sym="payload bytes and probe bytes symbolic; layout (sockets, regions, packets) concrete; packets injected as send_plan shows the sender emits them",
+      bounds="unwind 6; <= 2 sockets + 2 regions; 1..3 packets")
+for n in ["transit_queued_small", "transit_queued_multi", "transit_carrier_dropped_small", "transit_carrier_dropped_multi", "transit_unpacked_small", "transit_unpacked_multi"]:
+    H(n, ["C09"], sym="payload bytes symbolic; scenario and shape (3 / 57 bytes) concrete; the travelling receiver is injected by plain system calls", bounds="unwind 6")
+for n in ["crash_after_0_nosurv", "crash_after_1_nosurv", "crash_after_2_nosurv_try", "crash_after_3_nosurv", "crash_after_1_surv", "crash_after_2_surv_try", "crash_after_3_surv"]:
+    H(n, ["C12"], sym="payload bytes symbolic; the dying sender's packets are the prefixes (0..3 packets) of the 3-packet plan, then all its descriptors are closed; survivor handle and observer (recv / try_recv) concrete",
+      bounds="unwind 6; 3-packet message, <= 1 attachment")
+for n in ["many_63_single", "many_64_single", "many_65_single", "many_63_frag", "many_64_frag", "many_66_frag"]:
+    H(n, ["C15", "C18"], features="k_q,bigfd", timeout=1800, sym="payload bytes symbolic; N descriptors (name) + dedicated channel if fragmented, injected", bounds="unwind 72")
+for n in ["send_many_63_single", "send_many_64_single", "send_many_65_single", "send_many_63_frag", "send_many_64_frag", "send_many_64_enobufs"]:
+    H(n, ["C15"], features="k_rec,bigfd", timeout=1800, sym="attachment count n in the name; shapes: 1 byte / 25 bytes (2 packets) / 3000 bytes with the first attempt refused", bounds="unwind 72",
+      opt=["REACH_OK", "REACH_ERR"])
+PROPERTIES.update({k: dict(bounds="", outside="", assumptions=[]) for k in ["C12", "C15"]})
 PROPERTIES.update({k: dict(bounds="", outside="", assumptions=[]) for k in ["C03", "C04", "C05", "C09", "C10", "C18"]})
